@@ -273,6 +273,8 @@ structure Plan where
   op : Item → Item → Except Err Item       -- model slot operation
   spec : Item → Item → Except Err Item     -- specification slot operation
   zero : Item
+  preErr : Option Err                      -- model: error raised before the kernel runs (`pow_checked(..)?` of a decimal multiplier)
+  exactSpec : Bool                         -- decimal plan whose specification is the exact result (ignores `preErr`)
 
 inductive Resolved where
   | plan (p : Plan)
@@ -301,55 +303,83 @@ def bind2 (x y : Except Err Int) (f : Int → Int → Except Err Int) : Except E
     | .error e => .error e
     | .ok b => f a b
 
+/-- operand within its declared precision: `|v| < 10^p` -/
+def inPrec (v p : Int) : Bool := decide (-(10 ^ p.toNat : Int) < v) && decide (v < (10 ^ p.toNat : Int))
+
+/-- **specification** of a decimal operation on in-precision operands: the exact result of
+the rescaled operands on unbounded integers; an error only when that result is not
+representable in the result's physical type (or the divisor is zero).  `k1`, `k2` are the
+powers of ten the operands are rescaled by. -/
+def exactDec (t : NT) (a : AOp) (k1 k2 : Nat) (l r : Int) : Except Err Int :=
+  match exactOp a (l * 10 ^ k1) (r * 10 ^ k2) with
+  | .ok v => if t.inRange v then .ok v else .error .overflow
+  | .error e => .error e
+
 /-- `decimal_op` -/
 def decimalPlan (op : KOp) (bits : Nat) (p1 s1 p2 s2 : Int) : Resolved :=
   let t : NT := ⟨true, bits⟩
   let (maxP, maxS) := decMax bits
   -- scales far outside the generator's domain make `10^k` astronomically large: not covered
   if s1 < -40 ∨ s2 < -40 then .skip else
-  let mk (ty : Int × Int) (specTy : Int × Int) (f g : Int → Int → Except Err Int) : Resolved :=
-    -- documented (Hive) type rule, in the domain 0 ≤ s ≤ p where no `i8` wrap occurs
-    let specTy := if 0 ≤ s1 ∧ s1 ≤ p1 ∧ 0 ≤ s2 ∧ s2 ≤ p2 then specTy else ty
+  -- the property's domain for the type rules and the exact specification: valid decimal types
+  let inDomain : Bool := decide (1 ≤ p1 ∧ p1 ≤ maxP ∧ 0 ≤ s1 ∧ s1 ≤ p1 ∧ 1 ≤ p2 ∧ p2 ≤ maxP ∧ 0 ≤ s2 ∧ s2 ≤ p2)
+  -- `f`: model slot op as written; `g`: as-written specification (intermediates checked), used outside the
+  -- domain and for operands beyond their precision; `ex`: exact specification (in-domain, in-precision)
+  let mk (ty : Int × Int) (specTy : Int × Int) (pre : Option Err) (f g : Int → Int → Except Err Int)
+      (ex : Option (Int → Int → Except Err Int)) : Resolved :=
+    let specTy := if inDomain then specTy else ty
     -- `with_precision_and_scale(result_precision, result_scale)?` runs after the kernel
     let post := if !decTypeValid maxP maxS ty.1 ty.2 then some Err.invalidArg else none
-    .plan ⟨.dec bits ty.1 ty.2, .dec bits specTy.1 specTy.2, post, true, one1 f, one1 g, [0]⟩
+    let g' : Int → Int → Except Err Int := fun l r => match pre with | some e => .error e | none => g l r
+    match ex, inDomain with
+    | some ex, true =>
+      let sp : Int → Int → Except Err Int := fun l r => if inPrec l p1 && inPrec r p2 then ex l r else g' l r
+      .plan ⟨.dec bits ty.1 ty.2, .dec bits specTy.1 specTy.2, post, true, one1 f, one1 sp, [0], pre, true⟩
+    | _, _ =>
+      match pre with
+      | some e => .err e
+      | none => .plan ⟨.dec bits ty.1 ty.2, .dec bits specTy.1 specTy.2, post, true, one1 f, one1 g, [0], none, false⟩
+  let errOf : Except Err Int → Option Err := fun x => match x with | .error e => some e | .ok _ => none
+  let valOf : Except Err Int → Int := fun x => match x with | .ok v => v | .error _ => 1
   match op with
   | .add | .addW | .sub | .subW =>
     let ty := decAddTypeM maxP p1 s1 p2 s2
     let aop : AOp := if op.isAdd then .add else .sub
-    match nativePowChecked t 10 (expOfI8 (ty.2 - s1)), nativePowChecked t 10 (expOfI8 (ty.2 - s2)) with
-    | .ok l_mul, .ok r_mul =>
-      if s1 = s2 then
-        mk ty (decAddType maxP p1 s1 p2 s2) (nativeChecked t aop) (checkedSpec t aop)
-      else
-        mk ty (decAddType maxP p1 s1 p2 s2)
-          (fun l r => bind2 (nativeChecked t .mul l l_mul) (nativeChecked t .mul r r_mul) (nativeChecked t aop))
-          (fun l r => bind2 (checkedSpec t .mul l (10 ^ (ty.2 - s1).toNat)) (checkedSpec t .mul r (10 ^ (ty.2 - s2).toNat)) (checkedSpec t aop))
-    | .error e, _ => .err e
-    | _, .error e => .err e
+    let lm := nativePowChecked t 10 (expOfI8 (ty.2 - s1))
+    let rm := nativePowChecked t 10 (expOfI8 (ty.2 - s2))
+    let pre := (errOf lm).orElse (fun _ => errOf rm)
+    let (l_mul, r_mul) := (valOf lm, valOf rm)
+    if s1 = s2 then
+      mk ty (decAddType maxP p1 s1 p2 s2) pre (nativeChecked t aop) (checkedSpec t aop) none
+    else
+      mk ty (decAddType maxP p1 s1 p2 s2) pre
+        (fun l r => bind2 (nativeChecked t .mul l l_mul) (nativeChecked t .mul r r_mul) (nativeChecked t aop))
+        (fun l r => bind2 (checkedSpec t .mul l (10 ^ (ty.2 - s1).toNat)) (checkedSpec t .mul r (10 ^ (ty.2 - s2).toNat)) (checkedSpec t aop))
+        (some (exactDec t aop (ty.2 - s1).toNat (ty.2 - s2).toNat))
   | .mul | .mulW =>
     let ty := decMulTypeM maxP p1 s1 p2 s2
     if ty.2 > maxS then .err .invalidArg else
-    mk ty (decMulType maxP p1 s1 p2 s2) (nativeChecked t .mul) (checkedSpec t .mul)
+    mk ty (decMulType maxP p1 s1 p2 s2) none (nativeChecked t .mul) (checkedSpec t .mul) none
   | .div =>
     let (ty, mul_pow) := decDivTypeM maxP maxS p1 s1 p2 s2
     let muls : Except Err (Int × Int) :=
       if mul_pow > 0 then (nativePowChecked t 10 (expOfI8 mul_pow)).map (·, 1)
       else if mul_pow = 0 then .ok (1, 1)
       else (nativePowChecked t 10 (expOfI8 (-mul_pow))).map (1, ·)
-    match muls with
-    | .error e => .err e
-    | .ok (l_mul, r_mul) =>
-      mk ty (decDivType maxP maxS p1 s1 p2 s2)
-        (fun l r => bind2 (nativeChecked t .mul l l_mul) (nativeChecked t .mul r r_mul) (nativeChecked t .div))
-        (fun l r => bind2 (checkedSpec t .mul l (10 ^ mul_pow.toNat)) (checkedSpec t .mul r (10 ^ (-mul_pow).toNat)) (checkedSpec t .div))
+    let pre : Option Err := match muls with | .error e => some e | .ok _ => none
+    let (l_mul, r_mul) : Int × Int := match muls with | .ok m => m | .error _ => (1, 1)
+    mk ty (decDivType maxP maxS p1 s1 p2 s2) pre
+      (fun l r => bind2 (nativeChecked t .mul l l_mul) (nativeChecked t .mul r r_mul) (nativeChecked t .div))
+      (fun l r => bind2 (checkedSpec t .mul l (10 ^ mul_pow.toNat)) (checkedSpec t .mul r (10 ^ (-mul_pow).toNat)) (checkedSpec t .div))
+      (some (exactDec t .div mul_pow.toNat (-mul_pow).toNat))
   | .rem =>
     let ty := decRemTypeM maxP p1 s1 p2 s2
     let l_mul := nativePowWrapping t 10 (expOfI8 (ty.2 - s1))
     let r_mul := nativePowWrapping t 10 (expOfI8 (ty.2 - s2))
-    mk ty (decRemType maxP p1 s1 p2 s2)
+    mk ty (decRemType maxP p1 s1 p2 s2) none
       (fun l r => bind2 (nativeChecked t .mul l l_mul) (nativeChecked t .mul r r_mul) (nativeChecked t .rem))
       (fun l r => bind2 (checkedSpec t .mul l (t.wrap (10 ^ (ty.2 - s1).toNat))) (checkedSpec t .mul r (t.wrap (10 ^ (ty.2 - s2).toNat))) (nativeCheckedSpec t .rem))
+      (if s1 = s2 then none else some (exactDec t .rem (ty.2 - s1).toNat (ty.2 - s2).toNat))
 
 def isInterval : Ty → Bool | .iym | .idt | .imdn => true | _ => false
 def isDateTs : Ty → Bool | .date32 | .date64 | .ts _ => true | _ => false
@@ -361,7 +391,7 @@ def okInt (f : Int → Int → Int) : Int → Int → Except Err Int := fun a b 
 def resolve (fuel : Nat) (op : KOp) (lt rt : Ty) : Resolved :=
   let invalid := Resolved.err .invalidArg
   let checkedI (t : NT) (out : Ty) (a : AOp) : Resolved :=
-    .plan ⟨out, out, none, true, one1 (nativeChecked t a), one1 (checkedSpec t a), [0]⟩
+    .plan ⟨out, out, none, true, one1 (nativeChecked t a), one1 (checkedSpec t a), [0], none, false⟩
   match lt, rt with
   | .int t, .int t' =>
     if t ≠ t' then invalid else
@@ -372,10 +402,10 @@ def resolve (fuel : Nat) (op : KOp) (lt rt : Ty) : Resolved :=
     | .div => checkedI t lt .div
     | .rem => .plan ⟨lt, lt, none, true,
         one1 (fun l r => if r = 0 then .error .divzero else .ok (modWrapping t l r)),
-        one1 (checkedSpec t .rem), [0]⟩
-    | .addW => .plan ⟨lt, lt, none, false, one1 (okInt (addWrapping t)), one1 (wrappingSpec t .add), [0]⟩
-    | .subW => .plan ⟨lt, lt, none, false, one1 (okInt (subWrapping t)), one1 (wrappingSpec t .sub), [0]⟩
-    | .mulW => .plan ⟨lt, lt, none, false, one1 (okInt (mulWrapping t)), one1 (wrappingSpec t .mul), [0]⟩
+        one1 (checkedSpec t .rem), [0], none, false⟩
+    | .addW => .plan ⟨lt, lt, none, false, one1 (okInt (addWrapping t)), one1 (wrappingSpec t .add), [0], none, false⟩
+    | .subW => .plan ⟨lt, lt, none, false, one1 (okInt (subWrapping t)), one1 (wrappingSpec t .sub), [0], none, false⟩
+    | .mulW => .plan ⟨lt, lt, none, false, one1 (okInt (mulWrapping t)), one1 (wrappingSpec t .mul), [0], none, false⟩
   | .dec b p1 s1, .dec b' p2 s2 => if b ≠ b' then invalid else decimalPlan op b p1 s1 p2 s2
   | .ts u, rt =>
     match rt with
@@ -396,7 +426,7 @@ def resolve (fuel : Nat) (op : KOp) (lt rt : Ty) : Resolved :=
     if op.isSub then
       let f : Int → Int → Except Err Int := fun l r => .ok (i64T.wrap (i64T.wrap (l - r) * DATE32_SECONDS_IN_DAY))
       let g : Int → Int → Except Err Int := fun l r => .ok ((l - r) * 86400)
-      .plan ⟨.dur "s", .dur "s", none, false, one1 f, one1 g, [0]⟩
+      .plan ⟨.dur "s", .dur "s", none, false, one1 f, one1 g, [0], none, false⟩
     else invalid
   | .date64, .date64 => if op.isSub then checkedI i64T (.dur "ms") .sub else invalid
   | .date32, rt | .date64, rt =>
@@ -406,9 +436,9 @@ def resolve (fuel : Nat) (op : KOp) (lt rt : Ty) : Resolved :=
       if rt = lt ∧ (op.isAdd ∨ op.isSub) then
         let a : AOp := if op.isAdd then .add else .sub
         .plan ⟨lt, lt, none, true, compWise (intervalParts lt) (fun t => nativeChecked t a),
-               compWise (intervalParts lt) (fun t => checkedSpec t a), zeroOf lt⟩
+               compWise (intervalParts lt) (fun t => checkedSpec t a), zeroOf lt, none, false⟩
       else if rt = .int i64T ∧ op = .mul then
-        .plan ⟨lt, lt, none, true, intervalMulI64 lt, intervalMulI64 lt, zeroOf lt⟩
+        .plan ⟨lt, lt, none, true, intervalMulI64 lt, intervalMulI64 lt, zeroOf lt, none, false⟩
       else invalid
     else if isDurInt lt ∧ isDateTs rt ∧ op.commutative then
       match fuel with
@@ -476,11 +506,21 @@ def handleArith (opS ltS lS rtS rS : String) : String :=
         match r, p.postErr with
         | .ok _, some e => .error e
         | r, _ => r
-      let m := post (runKernelModel p l r)
+      let m := match p.preErr with
+        | some e => .error e
+        | none => post (runKernelModel p l r)
       let s := post (runKernelSpec p l r)
       let ms := showResult (m.map (p.outTy, ·))
+      let ss := showResult (s.map (p.outTy, ·))
       if p.outTy ≠ p.specOut then s!"MODEL-SPEC-MISMATCH type model={showTy p.outTy} spec={showTy p.specOut}" else
-      if sameOutcome m s then ms else s!"MODEL-SPEC-MISMATCH model={ms} spec={showResult (s.map (p.outTy, ·))}"
+      if sameOutcome m s then ms else
+      -- decimal kernels do not widen intermediates: the code (and the model, as written) reports
+      -- ArithmeticOverflow when a rescaled operand `l·10^k` or a multiplier `10^k` exceeds the native
+      -- width although the exact result is representable.  The property demands the exact result, so
+      -- the specification's answer is returned (known finding kf:decimal-intermediate-rescale-overflow).
+      match p.exactSpec, m, s with
+      | true, .error .overflow, .ok _ => ss
+      | _, _, _ => s!"MODEL-SPEC-MISMATCH model={ms} spec={ss}"
   | _, _, _, _, _ => "bad-op"
 
 /-- `neg` / `neg_wrapping` -/
